@@ -83,6 +83,34 @@ QUICK_COVER = ["cov_22", "cov_41", "cov_32", "cov_211", "cov_311"]
 THOROUGH_COVER = QUICK_COVER + ["cov_221", "cov_33"]
 
 
+def directed_programs():
+    def calls(seq):
+        return " ".join("%s %sF" % (c, c[0]) for c in seq.split())
+    out = []
+    for n in range(1, 10):
+        for pre_q in (True, False):
+            for alone in (True, False):
+                # thread 1 (quiescent or not in its epoch) pauses; thread 2, alone, goes through n quiescent states
+                # (n epoch changes); thread 1 resumes -- with nobody registered (alone) or next to thread 2; then
+                # requests, rounds and the drain
+                seq = ("1Q " if pre_q else "") + "1P " + "2Q " * n
+                seq += ("2P 1R 2R " if alone else "1R ")
+                seq += "1D0 1Q 2Q 1Q 2Q 1Q 2Q 1Q 2Q"
+                out.append("2 1 " + calls(seq))
+    for r in range(0, 7):
+        # two threads alternate quiescent states; the object is retired in round r (every value of the epoch);
+        # the retiring thread then pauses / keeps running
+        for leave in ("", "1P ", "2P "):
+            seq = "1Q 2Q " * r + "2T0 1D0 2X " + leave + "1Q 2Q " * 4
+            seq = seq.replace("1P 1Q", "1P").replace("2P 1Q 2Q", "2P 1Q")
+            out.append("2 1 " + calls(" ".join(x for x in seq.split() if not (leave.strip() and x[0] == leave[0] and x != leave.strip() and seq.split().index(leave.strip()) < seq.split().index(x)))))
+    for n in (3, 4, 5, 8):
+        # three threads: 3 lags (never quiescent) while 1 and 2 cannot advance; then 3 pauses and the others run n rounds
+        seq = "3P " + "1Q 2Q " * n + "3R 1D0 1Q 2Q 3Q " * 2 + "1Q 2Q 3Q 1Q 2Q 3Q"
+        out.append("3 1 " + calls(seq))
+    return out
+
+
 def run_driver(exe, d, name, inp=None, random_n=0, seed=1, threads=3, objs=2, budget=5, timeout=900, epoch_offset=0):
     evf = os.path.join(d, name + ".ndjson")
     obsf = os.path.join(d, name + ".obs")
@@ -233,6 +261,12 @@ def run(prop, tier, seed):
     # ---- 2. behaviours to replay
     inputs = [k for k in killers.values() if k]
     cover_stats = {}
+    # call-level programs over MANY epochs (each call runs to completion: "<t><op> <t>F"): the model-derived
+    # behaviours and the random programs make at most 3-4 epoch changes, these make up to 10, so the 2-bit epoch
+    # wraps while a thread is paused / lags / holds requests (seeds c05f, c06e)
+    directed = directed_programs()
+    inputs += directed
+    cover_stats["directed_many_epochs"] = {"behaviours": len(directed)}
 
     def cover(c):
         if tier == "quick":
